@@ -279,6 +279,7 @@ func (g *c05Gen) stmt() {
 type c05Prog struct {
 	src    string
 	want   []*big.Int // reference results (when the family computes them)
+	opt    c05StreamOpt
 	g, e   []string
 	feat   map[string]int
 	nstmts int
